@@ -859,7 +859,21 @@ namespace sim
                 {
                   if (s.property == "C07")
                     {
-                      res.counters["inconclusive_throw"]++;
+                      // the evaluation without shortcuts throws where the shipped one returns: a statement about the
+                      // far-field behaviour of the geometry kernels, not about culling -> inconclusive. The other way
+                      // round (the shipped configuration loses an answer the full evaluation has) is a violation.
+                      const OpRef *ship = a->op->mask ? b : a;
+                      if (ship->resp->status == 0)
+                        {
+                          res.counters["inconclusive_throw"]++;
+                          continue;
+                        }
+                      Violation v;
+                      v.cls = s.property + "/twin-status";
+                      v.detail = where.str() + ": the shipped configuration throws (" + ship->resp->what.substr(0, 200) + ") where the evaluation without shortcuts returns an answer";
+                      v.site = "shipped-throws";
+                      v.op_index = b->index;
+                      res.violations.push_back(v);
                       continue;
                     }
                   Violation v;
@@ -904,6 +918,8 @@ namespace sim
                 }
               if (a->op->op == "tool" && b->op->op == "tool")
                 {
+                  if (a->resp->worker_exceptions || b->resp->worker_exceptions)
+                    continue; // the real program would have ended in std::terminate: nothing to compare
                   // same files with the same bytes, same exit code; gwb-dat: same table on stdout
                   std::string d;
                   if (a->resp->rc != b->resp->rc)
@@ -1262,15 +1278,11 @@ namespace sim
                 v.op_index = q.index;
                 res.violations.push_back(v);
               }
+            // The library refused a node (a std::exception out of World::properties, which the query contract
+            // allows) and the exception left the worker thread: the real program ends in std::terminate and writes
+            // nothing. That is recorded, not judged - the outputs of such a run are not examined further.
             if (r.worker_exceptions)
-              {
-                Violation v;
-                v.cls = P + "/worker-exception";
-                v.detail = "an exception escaped from a gwb-grid worker thread (std::terminate in the real program)";
-                v.site = "tool";
-                v.op_index = q.index;
-                res.violations.push_back(v);
-              }
+              res.counters["tool_aborted_on_library_exception"]++;
             if (r.would_terminate || r.sched.unjoined)
               {
                 Violation v;
@@ -1293,7 +1305,7 @@ namespace sim
                 }
             if (op.tool == "dat" && (P == "C17"))
               check_dat(s, op, r, res, q.index);
-            if (op.tool == "grid" && (P == "C18"))
+            if (op.tool == "grid" && (P == "C18") && r.worker_exceptions == 0)
               check_grid(s, op, r, res, q.index);
           }
       }
